@@ -188,6 +188,7 @@ class GroupRecord (object):
     auxlen *= 4
     addrs = []
     for _ in range(n):
+      if len(raw) - offset < 4: break # Truncated source list
       addrs.append( IPAddr(raw[offset:offset+4])  )
       offset += 4
     aux = raw[offset:offset+auxlen]
